@@ -139,18 +139,22 @@ Theorem main_oracle_stop c :
   oracle c = true ->
   match c with
   | CSeq _ _ _ sr ce | CConc _ _ _ sr ce => sr = true /\ ce = true
-  | CStops calls => forall sr ce, In (sr, ce) calls -> sr = true /\ ce = true
+  | CStops calls late =>
+      (forall sr ce, In (sr, ce) calls -> sr = true /\ ce = true) /\ late = false
   end.
 Proof.
-  destruct c as [m o r sr ce|m o r sr ce|calls]; cbn [oracle]; unfold stop_ok; intro H.
+  destruct c as [m o r sr ce|m o r sr ce|calls late]; cbn [oracle]; unfold stop_ok; intro H.
   - apply andb_true_iff in H as [_ H]; apply andb_true_iff in H; exact H.
   - apply andb_true_iff in H as [_ H]; apply andb_true_iff in H; exact H.
-  - intros sr ce Hin. rewrite forallb_forall in H. specialize (H _ Hin).
-    cbn [fst snd] in H. apply andb_true_iff in H; exact H.
+  - apply andb_true_iff in H as [H Hl]. split.
+    + intros sr ce Hin. rewrite forallb_forall in H. specialize (H _ Hin).
+      cbn [fst snd] in H. apply andb_true_iff in H; exact H.
+    + destruct late; [discriminate|reflexivity].
 Qed.
 
 Example main_oracle_stop_nonvacuous :
-  oracle (CStops [(true, true); (true, true); (true, true)]) = true /\
-  check_case (CStops [(true, true); (true, false)]) = 2 /\
-  check_case (CStops [(true, true); (false, false)]) = 2.
+  oracle (CStops [(true, true); (true, true); (true, true)] false) = true /\
+  check_case (CStops [(true, true); (true, false)] false) = 2 /\
+  check_case (CStops [(true, true); (false, false)] false) = 2 /\
+  check_case (CStops [(true, true); (true, true)] true) = 2.
 Proof. vm_compute. repeat split; reflexivity. Qed.
